@@ -197,7 +197,7 @@ def c09(tier):
     run.add_mc(F.curated() + F.random_family(3100 + s, sizes(tier, 30, 120), nmax=4), ["C09"], max_pause=1,
                replay=(tier != "quick"))
     run.add_jobs(jobs_for(defs, {"pause": 1, "max_nodes": sizes(tier, 1500, 6000)}, s, ("yaql", "jinja")))
-    run.add_jobs(jobs_for(F.curated_items() + F.curated_retry(), {"pause": 1, "max_nodes": sizes(tier, 1000, 6000)}, s))
+    run.add_jobs(jobs_for(F.curated_items() + F.curated_retry() + F.curated_ctx(), {"pause": 1, "max_nodes": sizes(tier, 1000, 6000)}, s))
     gs, infeasible = G.pause_groups(run.results, sizes(tier, 40, 120), random.Random(s))
     run.extra["twin_infeasible"] = infeasible
     run.add_groups(gs)
